@@ -5,6 +5,7 @@ import (
 	"fmt"
 	"os"
 	"path/filepath"
+	"strings"
 	"sync"
 
 	"verif/harness/hmain"
@@ -22,10 +23,14 @@ func (b *caseB) line(stream string, pad, kind, delay int) hx.Sx {
 	return hx.L(hx.S(stream), hx.I(minLen(l)+pad), hx.I(kind), hx.I(delay))
 }
 
-func opAppend(name int, cut int, lines ...hx.Sx) hx.Sx { return hx.L(hx.I(0), hx.I(name), hx.L(lines...), hx.I(cut)) }
-func opRename(name, to int) hx.Sx                      { return hx.L(hx.I(1), hx.I(name), hx.I(to)) }
-func opTrunc(name int, cut int, lines ...hx.Sx) hx.Sx  { return hx.L(hx.I(2), hx.I(name), hx.L(lines...), hx.I(cut)) }
-func live(wait int, op hx.Sx) hx.Sx                    { return hx.L(hx.I(wait), op) }
+func opAppend(name int, cut int, lines ...hx.Sx) hx.Sx {
+	return hx.L(hx.I(0), hx.I(name), hx.L(lines...), hx.I(cut))
+}
+func opRename(name, to int) hx.Sx { return hx.L(hx.I(1), hx.I(name), hx.I(to)) }
+func opTrunc(name int, cut int, lines ...hx.Sx) hx.Sx {
+	return hx.L(hx.I(2), hx.I(name), hx.L(lines...), hx.I(cut))
+}
+func live(wait int, op hx.Sx) hx.Sx { return hx.L(hx.I(wait), op) }
 func phaseS(down []hx.Sx, mode, arg, evT int, lives ...hx.Sx) hx.Sx {
 	return hx.L(hx.L(down...), hx.L(hx.I(mode), hx.I(arg), hx.I(evT)), hx.L(lives...))
 }
@@ -61,8 +66,9 @@ func witnessTruncInflight() hx.Sx {
 		phaseS(nil, 0, 0, 150))
 }
 
-// the same with ONE stream, the file ending in an empty line: In returns EventSeqIDError (0) for it, so
-// job.lastEventSeq = 0 and truncateJob ignores nothing
+// the same with ONE stream, the file ending in an empty line: In returns EventSeqIDError (0) for it. FIXED (dfe641a,
+// fixes/C03-truncate-inflight-blank-line.patch): the worker used to store that 0 in job.lastEventSeq, truncateJob then
+// ignored nothing and the first new line hit "offset corruption"; now lastEventSeq stays 4 and the case must Agree
 func witnessTruncInflightBlank() hx.Sx {
 	b := &caseB{}
 	return mkCase(cfgS(0, 4, 0, 0, 10, 25, 0, 0),
@@ -193,8 +199,12 @@ func gen03(c *hmain.Ctx) {
 					delay = r.Range(1, 12)
 				}
 				ls = append(ls, b.line(hx.Pick(r, fileStreams[f]), r.Intn(40), kind, delay))
-				if adversarial && r.Chance(1, 3) { // empty lines between the events (dropped by the pipeline)
-					ls = append(ls, b.line("", r.Range(0, 2), 2, 0))
+				if adversarial && r.Chance(1, 3) { // empty / undecodable lines between the events (dropped by the pipeline)
+					if r.Chance(1, 3) {
+						ls = append(ls, b.line("", r.Range(0, 9), 3, 0))
+					} else {
+						ls = append(ls, b.line("", r.Range(0, 2), 2, 0))
+					}
 				}
 			}
 			return ls
@@ -332,7 +342,95 @@ func gen03(c *hmain.Ctx) {
 	}
 	if knownListed("C03-truncate-inflight") {
 		add("truncate-inflight", 0, witnessTruncInflight(), true)
-		add("truncate-inflight", 0, witnessTruncInflightBlank(), true)
+	}
+	// repaired (dfe641a): ONE stream, the file ends in an empty line — always run, must Agree (also in corpus/C03)
+	add("truncate-inflight-blank", 0, witnessTruncInflightBlank(), true)
+
+	// ---- 6b. ONE stream, empty / undecodable lines at random places (also as the last line of the old and of the new
+	//          content), a live truncation while events are in flight: the first line is held by the output (synchronous
+	//          output sleeping in Out, or the batcher's OutFn), the truncation is applied as soon as one event was delivered.
+	//          In returns EventSeqIDError for the junk lines; the repaired worker keeps job.lastEventSeq, so every old event
+	//          is ignored by Commit, nothing panics and every line written after the truncation is delivered.
+	for i := 0; i < 10*c.Scale; i++ {
+		b := &caseB{}
+		s := hx.Pick(r, streamsPool)
+		junk := func() hx.Sx {
+			if r.Chance(1, 2) {
+				return b.line(s, r.Range(0, 2), 2, 0) // 1..3 empty lines
+			}
+			return b.line(s, r.Range(0, 10), 3, 0) // one undecodable line of 2..12 bytes
+		}
+		content := func(n int, hold bool, lastJunk int) (ls []hx.Sx, njunk int) {
+			if r.Chance(1, 5) {
+				ls = append(ls, junk())
+				njunk++
+			}
+			for k := 0; k < n; k++ {
+				delay := 0
+				switch {
+				case hold && k == 0:
+					delay = hx.Pick(r, []int{30, 80, 300})
+				case hold && r.Chance(1, 2):
+					delay = r.Range(1, 15)
+				}
+				pad := 0
+				if hold {
+					pad = r.Intn(12)
+				}
+				ls = append(ls, b.line(s, pad, 0, delay))
+				if k < n-1 && r.Chance(1, 3) {
+					ls = append(ls, junk())
+					njunk++
+				}
+			}
+			for k := 0; k < lastJunk; k++ {
+				ls = append(ls, junk())
+				njunk++
+			}
+			return ls, njunk
+		}
+		lastOld := 0
+		if i%2 == 0 || r.Chance(1, 3) { // the trigger of the repaired defect: the last line read before the truncation is junk
+			lastOld = r.Range(1, 2)
+		}
+		old, nj := content(r.Range(3, 7), true, lastOld)
+		lastNew := 0
+		if r.Chance(1, 3) {
+			lastNew = 1
+		}
+		total := func(ls []hx.Sx) (n int64) {
+			for _, l := range ls {
+				n += hx.Int(hx.Items(l)[1])
+			}
+			return n
+		}
+		// the truncation is detected iff the new size is below what the reader consumed (the whole old content)
+		mark := b.nextID
+		fresh, nj2 := content(r.Range(1, 2), false, lastNew)
+		for try := 0; total(fresh) >= total(old); try++ {
+			b.nextID = mark
+			if try < 4 {
+				fresh, nj2 = content(1, false, lastNew)
+			} else {
+				fresh, nj2 = []hx.Sx{b.line(s, 0, 0, 0)}, 0
+			}
+		}
+		lives := []hx.Sx{live(2, opTrunc(0, 0, fresh...))}
+		if r.Chance(1, 2) {
+			more, nj3 := content(r.Range(1, 3), false, r.Intn(2))
+			nj2 += nj3
+			lives = append(lives, live(1, opAppend(0, 0, more...)))
+		}
+		outKind := 0
+		if r.Chance(1, 4) {
+			outKind = 1
+		}
+		cs := mkCase(cfgS(r.Intn(2), 1+3*r.Intn(2), 0, outKind, hx.Pick(r, []int{2, 10}), 25, 0, 0),
+			phaseS([]hx.Sx{opAppend(0, 0, old...)}, 0, 0, 30000, lives...),
+			phaseS(nil, 0, 0, 150))
+		add("truncate-inflight-junk", 0, cs, true)
+		c.W.Count(fmt.Sprintf("truncate-inflight-junk: junk lines before the truncation=%d, last line read is junk=%v", min(nj, 3), lastOld > 0))
+		c.W.Count(fmt.Sprintf("truncate-inflight-junk: junk lines after the truncation=%d output=%d", min(nj2, 3), outKind))
 	}
 
 	// ---- 7. antispam enabled + a stream named "" (fixed defect: In applied the saved offset of stream "" to every line)
@@ -373,6 +471,12 @@ func gen03(c *hmain.Ctx) {
 	}
 	noteMu.Unlock()
 	for _, j := range jobs {
+		if v, ok := inflightSeen.Load(hx.String(j.cs)); ok && strings.HasPrefix(j.stream, "truncate-inflight") {
+			for _, n := range v.([]int) {
+				c.W.Count(fmt.Sprintf("%s: events in flight at the live truncation=%d", j.stream, min(n, 6)))
+			}
+			inflightSeen.Delete(hx.String(j.cs))
+		}
 		c.W.Case(j.stream, j.which, j.cs, j.obs, j.nontr)
 		runs := hx.Items(j.obs)
 		_, phases := decodeCase(j.cs)
